@@ -3295,7 +3295,7 @@ func stackTypeAliasConverter(u any) (S Stack, converted bool) {
 
 		a, v, _ := derefPtr(typOf(u), valOf(u))
 		b := typOf(Stack{}) // target (dest) type
-		if a.ConvertibleTo(b) {
+		if v.IsValid() && a.ConvertibleTo(b) {
 			X := v.Convert(b).Interface()
 			if assert, ok := X.(Stack); ok {
 				if !assert.IsZero() {
